@@ -118,7 +118,8 @@ TARGETS = {
     "C09": MODULE_GLUE + [("tensor/qbits/packed.py", "PackedTensor.bits"), ("tensor/qbits/packed.py", "PackedTensor.dtype")],
     "C10": [("tensor/qtype.py", "qtype.__str__"), ("tensor/qtype.py", "qtype.__hash__"), ("tensor/qtype.py", "<module>"),
             ("serialization.py", "<module>"), ("nn/qmodule.py", "<module>")],
-    "C11": [("tensor/qtensor_func.py", "<module>"), ("tensor/quantizers/symmetric.py", "<module>"),
+    "C11": [("calibrate.py", "<module>"), ("calibrate.py", "Calibration.calibrate_input"), ("calibrate.py", "Calibration.calibrate_output"), ("calibrate.py", "Calibration.__torch_function__"),
+            ("tensor/qtensor_func.py", "<module>"), ("tensor/quantizers/symmetric.py", "<module>"),
             ("tensor/quantizers/affine.py", "<module>"), ("nn/qmodule.py", "QModuleMixin.qforward")],
     "C12": CALIB_GLUE,
     "C13": CALIB_GLUE,
